@@ -175,6 +175,37 @@ def d19():  # C07: the custom field sorter shares its order list with every entr
     return out2.entries[0].parser_metadata[k] is not out1.entries[0].parser_metadata[k]
 
 
+def d20():  # C12: an unmatched closing brace right after a separator starts the next name
+    from bibtexparser.middlewares.names import split_multiple_persons_names as sp
+    return sp("x and }") == ["x", "}"] and sp("A and }B") == ["A", "}B"]
+
+
+def d21():  # C18: a conversion failure whose exception has no message must still give an error block
+    from bibtexparser import Library
+    from bibtexparser.middlewares import LatexDecodingMiddleware
+    from bibtexparser.model import Entry, Field
+
+    class Dec:
+        def latex_to_text(self, s):
+            raise ValueError()
+    out = LatexDecodingMiddleware(decoder=Dec()).transform(Library([Entry("a", "k", [Field("t", "x")])]))
+    return len(out.failed_blocks) == 1 and not out.entries
+
+
+def d22():  # C13: a caseless letter does not make a word lower-case
+    from bibtexparser.middlewares.names import parse_single_name_into_parts as pn
+    r = pn("Mao \u6cfd Dong")
+    return (r.first, r.von, r.last) == (["Mao", "\u6cfd"], [], ["Dong"])
+
+
+def d23():  # C06: a warning comment with other braces than {n}
+    from bibtexparser import Library, writer
+    from bibtexparser.model import ParsingFailedBlock
+    f = writer.BibtexFormat()
+    f.parsing_failed_comment = "% failed {block}"
+    return writer.write(Library([ParsingFailedBlock(ValueError(), raw="@x{")]), f) == "% failed {block}\n@x{\n"
+
+
 if __name__ == "__main__":
     bad = 0
     for name, f in sorted(((k, v) for k, v in globals().items() if k[0] == "d" and k[1:].isdigit()), key=lambda kv: int(kv[0][1:])):
